@@ -39,9 +39,21 @@ var alphabetWide = []uint64{0, 1, 2, 5, 999998, 999999, 1000000, 1000001, 100000
 type hcase struct {
 	Dialect bool     `json:"dialect"`
 	TS      []uint64 `json:"ts"`
+	// Forged[i]: frame i is signed with another key (must be refused and must not move the window)
+	Forged []bool `json:"forged,omitempty"`
 }
 
+var otherKey = func() []byte {
+	k := append([]byte{}, key...)
+	k[7] ^= 0x10
+	return k
+}()
+
 func signedFrame(ts uint64, seq byte, withDialect bool) []byte {
+	return signedFrameK(ts, seq, withDialect, key)
+}
+
+func signedFrameK(ts uint64, seq byte, withDialect bool, signKey []byte) []byte {
 	f := &ref.Frame{V2: true, Incompat: 1, Seq: seq, Sys: 7, Comp: 9, ID: 300000, Payload: []byte{1, 2, 3}, LinkID: 4, Timestamp: ts}
 	f.Checksum = 0x1234
 	if withDialect {
@@ -50,7 +62,7 @@ func signedFrame(ts uint64, seq byte, withDialect bool) []byte {
 		f.Payload = []byte{1, 0, 0, 0, 2, 3, 4, 5, 6}
 		f.Checksum = f.ComputeChecksum(50)
 	}
-	f.Sig = f.Sign(key)
+	f.Sig = f.Sign(signKey)
 	return f.Bytes()
 }
 
@@ -66,6 +78,10 @@ var drw = func() *dialect.ReadWriter {
 func runHistory(c hcase) (string, int) {
 	var stream bytes.Buffer
 	for i, ts := range c.TS {
+		if i < len(c.Forged) && c.Forged[i] {
+			stream.Write(signedFrameK(ts, byte(i), c.Dialect, otherKey))
+			continue
+		}
 		stream.Write(signedFrame(ts, byte(i), c.Dialect))
 	}
 	r := &frame.Reader{ByteReader: &stream, InKey: frame.NewV2Key(key)}
@@ -78,6 +94,16 @@ func runHistory(c hcase) (string, int) {
 	var w ref.Window
 	for i, ts := range c.TS {
 		fr, err := r.Read()
+		if i < len(c.Forged) && c.Forged[i] {
+			if err == nil {
+				return fmt.Sprintf("step %d ts=%d: frame signed with another key accepted", i, ts), i
+			}
+			var re frame.ReadError
+			if !errors.As(err, &re) {
+				return fmt.Sprintf("step %d: refusal of a forged frame is not a non-fatal ReadError: %v", i, err), i
+			}
+			continue // the reference window ignores it
+		}
 		want := w.Accept(ts)
 		if want {
 			if err != nil {
@@ -104,7 +130,7 @@ func main() {
 	r := bx.Start("C07", "model_checking")
 	r.Replayer = func(class string, raw json.RawMessage) (bool, string) {
 		switch class {
-		case "window":
+		case "window", "window_forged":
 			var c hcase
 			json.Unmarshal(raw, &c)
 			d, _ := runHistory(c)
@@ -186,6 +212,34 @@ func main() {
 		}
 	}
 
+	// forged frames (signed with another key) interleaved: all histories of depth 3 over the
+	// alphabet where every position may be forged
+	{
+		n := len(alphabet)
+		total := n * n * n * 8
+		bx.ParDo(total, func(idx int) {
+			c := hcase{TS: make([]uint64, 3), Forged: make([]bool, 3)}
+			x := idx
+			for i := 0; i < 3; i++ {
+				c.Forged[i] = x%2 == 1
+				x /= 2
+			}
+			if !c.Forged[0] && !c.Forged[1] && !c.Forged[2] {
+				return
+			}
+			for i := 0; i < 3; i++ {
+				c.TS[i] = alphabet[x%n]
+				x /= n
+			}
+			d, steps := runHistory(c)
+			transitions.Add(steps)
+			hist.Add(1)
+			if d != "" {
+				r.Fail("window_forged", fmt.Sprint(c.TS, c.Forged), c, d)
+			}
+		})
+	}
+
 	if d := writerCheck(r, false); d != "" {
 		r.Fail("writer_ts", "writer", struct{}{}, d)
 	}
@@ -233,6 +287,7 @@ func writerCheck(r *bx.Run, quiet bool) string {
 		for i := 0; i < 300; i++ {
 			var msg message.Message = &minimal.MessageHeartbeat{Type: 1}
 			before := tick(time.Now())
+			nb := len(cp.bufs)
 			var err error
 			if kind == "streamwriter" {
 				err = sw.Write(msg)
@@ -243,7 +298,11 @@ func writerCheck(r *bx.Run, quiet bool) string {
 			if err != nil {
 				return kind + ": " + err.Error()
 			}
-			it, ok := ref.ParseOne(cp.bufs[len(cp.bufs)-1])
+			var emitted []byte
+			for _, b := range cp.bufs[nb:] {
+				emitted = append(emitted, b...)
+			}
+			it, ok := ref.ParseOne(emitted)
 			if !ok || it.Kind != ref.KindFrame || !it.Frame.Signed() {
 				return kind + ": emitted bytes are not a signed frame"
 			}
